@@ -17,7 +17,7 @@ def main():
     importlib.import_module(modname)
     reg = SourceRegistry()
     lib = Lib()
-    contracts = {c.target: c for c in REGISTRY.values()}
+    contracts = {c.target: c for c in REGISTRY.values() if c.name == c.target}
     for name, C in REGISTRY.items():
         if filt not in name:
             continue
